@@ -117,6 +117,7 @@ func c11Run(w *W) {
 	})
 	laddr := w.Addr(tran)
 	absent := w.Addr(tran) // nobody ever listens here
+	var silentL *NetListener
 	l0, err := s.NewListener(laddr, w.EpOpts(laddr, true, nil))
 	if err != nil || l0.Listen() != nil {
 		w.Failf("HARNESS/listen", "%v", err)
@@ -126,6 +127,20 @@ func c11Run(w *W) {
 	if d0, err := s.NewDialer(absent, w.EpOpts(absent, false, map[string]interface{}{mangos.OptionDialAsynch: true})); err == nil {
 		dialers = append(dialers, d0)
 		_ = d0.Dial()
+	}
+	// on the stream transports also a dialer whose peer accepts the connection
+	// and then says nothing: its Dial stays in flight for the whole program,
+	// and no other call may have to wait for it
+	if tran != "msg" && tran != "inproc" && curNet != nil {
+		silent := w.Addr(tran)
+		if hl, err := curNet.Listen(NetKey(silent)); err == nil {
+			silentL = hl
+			if d1, err := s.NewDialer(silent, w.EpOpts(silent, false, map[string]interface{}{mangos.OptionDialAsynch: true})); err == nil {
+				dialers = append(dialers, d1)
+				_ = d1.Dial()
+				w.Probe("dial-in-flight-to-silent-peer")
+			}
+		}
 	}
 	// peers with background traffic
 	stop := w.NewEvent()
@@ -378,6 +393,11 @@ func c11Run(w *W) {
 		}
 	}
 	stop.Set()
+	if silentL != nil {
+		// the silent peer hangs up at last (a dial still in flight to a peer
+		// that stays silent for ever is C10's dedicated cell, a known finding)
+		silentL.Close()
+	}
 	s.Close()
 	for _, ps := range peers {
 		ps.Close()
